@@ -7,3 +7,25 @@ Theorem C15_failure_is_atomic `{Sig} : forall E n ks k st e st',
   atomically E (kcall_prog n ks k) st = (RErr e, st') -> st' = st.
 Proof. intros E n ks k. exact (atomically_err_noop E (kcall_prog n ks k)). Qed.
 Print Assumptions C15_failure_is_atomic.
+
+(** The identity behind "the signed area is conserved by a swap": the two triangles on either diagonal of a
+    quadrilateral a b c d have the same total signed area. *)
+From Coq Require Import ZArith Lia.
+From HC Require Import Geom.Shoelace.
+Theorem C15_swap_conserves_area : forall a b c d : P,
+  (tri2 a b c + tri2 a c d = tri2 b c d + tri2 b d a)%Z.
+Proof. intros a b c d. unfold tri2. ring. Qed.
+Print Assumptions C15_swap_conserves_area.
+
+(** ... and by cutting an edge at a point m of the segment [a, b] (m = a + t (b - a), here with the
+    parameter cleared: den * m = (den - num) * a + num * b): the triangle a b c splits in a m c and m b c. *)
+Theorem C15_cut_conserves_area : forall (a b c m : P) (num den : Z),
+  (den * fst m = (den - num) * fst a + num * fst b)%Z -> (den * snd m = (den - num) * snd a + num * snd b)%Z ->
+  (den * (tri2 a m c + tri2 m b c) = den * tri2 a b c)%Z.
+Proof.
+  intros a b c m num den Hx Hy. unfold tri2.
+  transitivity (den * (- fst a * (snd c - snd a) + snd a * (fst c - fst a) + fst b * snd c - snd b * fst c)
+                + (den * fst m) * (snd b - snd a) + (den * snd m) * (fst a - fst b))%Z; [ring|].
+  rewrite Hx, Hy. ring.
+Qed.
+Print Assumptions C15_cut_conserves_area.
